@@ -327,4 +327,4 @@ Definition stage_tag (s : stage_code) : N :=
 Definition digest (cs : list case) : list (N * N) :=
   map (fun t => (t, count_where (fun c => N.eqb (stage_tag (stage (pc c))) t) cs)) (map N.of_nat (seq 1 16)) ++
   (* tag 100: traces on which the acceptance exploration ran out of fuel before finding a run (inconclusive) *)
-  [(100%N, count_where (fun c => negb (N.eqb (sched c) 9) && inconclusive (pc c)) cs)].
+  [(100%N, count_where (fun c => negb (N.eqb (sched c) 9) && inconclusive (N.eqb (sched c) 6) (pc c)) cs)].
